@@ -112,6 +112,17 @@ func (c *Ctx) runSharded(name string, nshards, par int, race bool, watchdog time
 }
 
 func (c *Ctx) mergeShard(name string, s, n int, res childResult) {
+	// race-detector reports of the child (counted by report blocks, not by exit code)
+	for _, rr := range parseRaces(res.Out) {
+		c.Count("race_reports", int64(rr.Count))
+		if c.raceJudge != nil {
+			c.raceJudge(rr)
+		} else if rr.Sdfx {
+			c.Violate("", fmt.Sprintf("data-race %s (%d reports in shard %d)", rr.Key, rr.Count, s), map[string]any{"shard": name, "index": s, "report": rr.Block})
+		} else {
+			c.Inconclusive("race report without sdfx frames (harness code): " + rr.Key)
+		}
+	}
 	var st *shardState
 	jsonLines(res.Out, "STATE:", func(raw []byte) {
 		var x shardState
